@@ -142,7 +142,7 @@ def tstep (tc : TCfg) (w : TWorld) : TOp → TWorld × List Res
     (⟨t, if op.isCrash then ⟨w.node.cls, 0⟩ else w.node⟩, [r])
   | .ckpt c v =>
     let (t, n, r) := apply1 tc w.tree .main w.node (.save c v)
-    if c = .bothFail then
+    if c.fails then
       -- the checkpoint raises out of the child's `_run_finally`: the root fails and writes its recovery file
       let (t2, _, r2) := apply1 tc t .recovery n (.save c v)
       (⟨t2, n⟩, [r, r2])
@@ -167,7 +167,7 @@ def TOp.proj (s : Store) : TOp → List Op
   | .ckpt c v =>
     match s with
     | .main => [.save c v]
-    | .recovery => if c = .bothFail then [.save c v] else []
+    | .recovery => if c.fails then [.save c v] else []
     | _ => []
   | .ckptCrash c v k => if s = .main then [.crash c v k] else []
   | .fail c v => if s = .recovery then [.save c v] else []
@@ -186,7 +186,7 @@ def Tree.WF (t : Tree) : Prop :=
 /-- which stores a tree op writes to -/
 def TOp.touches : TOp → Store → Bool
   | .on s' _, s => s' == s
-  | .ckpt c _, s => s == .main || (s == .recovery && c == .bothFail)
+  | .ckpt c _, s => s == .main || (s == .recovery && c.fails)
   | .ckptCrash _ _ _, s => s == .main
   | .fail _ _, s => s == .recovery
   | .failCrash _ _ _, s => s == .recovery
